@@ -27,13 +27,15 @@ def fbits(x):
     return struct.unpack("<Q", struct.pack("<d", float(x)))[0]
 
 
-def state_digest(tree, calls):
+def state_digest(tree, calls, with_rng=True):
     import random as pyr
     h = []
     for lvl in tree._levels:
         for d in lvl:
             h.append((d._id, d._started_at, d._active, d._hibernating, int(d.n_evaluations), int(d._problem.n_evaluations), [c._id for c in d._children],
                       [[[(i.genome.tobytes(), fbits(i.fitness)) for i in g] for g in me] for me in d._history]))
+    if not with_rng:   # NaN-vs-NaN comparisons are settled by random.choice inside pyhms: the RNG clause is not compared on NaN objectives
+        return pickle.dumps((tree.metaepoch_count, h, calls[0]))
     return pickle.dumps((tree.metaepoch_count, h, calls[0], np.random.get_state()[1].tobytes(), np.random.get_state()[2:], pyr.getstate()))
 
 
@@ -59,11 +61,11 @@ ACCESSORS = [("summary", lambda t: t.summary()), ("tree", lambda t: t.tree()), (
              ("histories", lambda t: [d.history for _, d in t.all_demes]), ("active_demes", lambda t: [d._id for _, d in t.active_demes])]
 
 
-def probe(tree, rec, calls, out, order):
+def probe(tree, rec, calls, out, order, ran=None, nan_mode=False):
     """called at a metaepoch boundary"""
     mx = tree.config.levels[0].problem.maximize
     viol = []
-    d0 = state_digest(tree, calls)
+    d0 = state_digest(tree, calls, not nan_mode)
     answers = {}
     for name, fn in ACCESSORS:
         try:
@@ -72,16 +74,17 @@ def probe(tree, rec, calls, out, order):
         except Exception as ex:
             continue
         answers[name] = a1
-        if not same(a1, a2):
+        calls[0] = sum(1 for e in rec.ev if e["e"] == "call")
+        if not nan_mode and not same(a1, a2):
             viol.append({"key": "C20/repeatable", "what": f"accessor {name} gave two different answers when called twice at metaepoch {tree.metaepoch_count}"})
-        d1 = state_digest(tree, calls)
+        d1 = state_digest(tree, calls, not nan_mode)
         if d1 != d0:
             viol.append({"key": "C20/pure", "what": f"accessor {name} changed observable state (tree / objective calls / global RNG) at metaepoch {tree.metaepoch_count}"})
             d0 = d1
     # ---- parse the text
     text = answers.get("summary")
     ttext = answers.get("tree")
-    if text is None or ttext is None:
+    if text is None or ttext is None or nan_mode:
         return viol
     demes = [d for lvl in tree._levels for d in lvl]
     idx = {did: k for k, did in enumerate(order)}
@@ -159,7 +162,7 @@ def probe(tree, rec, calls, out, order):
         if bool(mm.group("mark").strip()) != (bests[did].fitness == gb.fitness):
             viol.append({"key": "C20/marker", "what": f"deme {did} (best {bests[did].fitness!r}) is {'marked' if mm.group('mark').strip() else 'not marked'} *** while the global best is {gb.fitness!r} "
                                                   f"(metaepoch {tree.metaepoch_count})"})
-    want_shown = [d._id for d in demes if d._id == "root" or len(d._history) - 1 >= 1]
+    want_shown = [d._id for d in demes if d._id == "root" or len(d._history) - 1 >= 1 or (ran is not None and d._id in ran)]
     if sorted(shown) != sorted(want_shown):
         viol.append({"key": "C20/lines", "what": f"tree() shows demes {sorted(shown)}; the root plus the demes that have run a metaepoch are {sorted(want_shown)}"})
     if ne != sum(int(d.n_evaluations) for d in demes) or nd != len(demes) or m != tree.metaepoch_count:
@@ -207,8 +210,13 @@ def _work(seed):
     from hv import gen, rec
     rng = random.Random(seed)
     force = {"cap_evals": 1200}
-    if rng.random() < 0.4:
+    c = rng.random()
+    if c < 0.4:
         force["objective_kind"] = rng.choice(["zero", "zerobest", "plateau"])
+    elif c < 0.5:
+        force.update(objective_kind="nanhole", box=[[-5.0, 5.0], [-5.0, 5.0]], dim=2)
+    elif c < 0.6:
+        force.update(height=2, engines=[rng.choice(["SEA", "DE"]), "Local"], objective_kind=rng.choice(["plateau", "zero", "sphere"]))
     spec = gen.gen_spec(seed, **force)
     out, viol = [], []
     order = []
@@ -222,7 +230,8 @@ def _work(seed):
         while True:
             order[:] = [e["id"] for e in r.ev if e["e"] == "new"]
             calls[0] = ncalls()
-            viol.extend(probe(tree, r, calls, out, order))
+            ran = {e["id"] for e in r.ev if e["e"] == "run" and e["ph"] == "b"}
+            viol.extend(probe(tree, r, calls, out, order, ran, spec["objective"]["kind"] == "nanhole"))
             if tree._gsc(tree) or steps > 40:
                 break
             tree.run_step()
